@@ -83,6 +83,36 @@ def selftest(prop, jobs):
     return out
 
 
+def benign(prop, jobs):
+    """behaviour-preserving refactorings kept under benign/: none of the property's obligations may be refuted on them (false-alarm guard)"""
+    from pyvc.run import run_jobs
+    out = {}
+    for d in sorted(glob.glob(os.path.join(ROOT, 'benign', '*'))):
+        try:
+            meta = json.load(open(os.path.join(d, 'meta.json')))
+        except Exception:
+            continue
+        if prop not in meta.get('properties', []):
+            continue
+        scratch = tempfile.mkdtemp(prefix='pyvc_scratch_', dir='/tmp')
+        try:
+            shutil.copytree('/repo/playback', os.path.join(scratch, 'playback'))
+            a = subprocess.run(['patch', '-p1', '-s', '-i', os.path.join(d, 'patch.diff')], capture_output=True, text=True, cwd=scratch)
+            if a.returncode != 0:
+                out[os.path.basename(d)] = {'false_alarm': None, 'note': 'patch does not apply to the current tree'}; continue
+            os.environ['PYVC_REPO'] = scratch
+            try:
+                res = run_jobs(jobs)
+            finally:
+                os.environ.pop('PYVC_REPO', None)
+            refuted = [r['name'] for o in res for r in o['results'] if r['verdict'] == 'refuted' and not r.get('finding')]
+            undec = sum(1 for o in res if o['undecided'] or o['error']) + sum(1 for o in res for r in o['results'] if r['verdict'] == 'undecided' and not r.get('finding'))
+            out[os.path.basename(d)] = {'false_alarm': bool(refuted), 'refuted': refuted[:5], 'undecided': undec}
+        finally:
+            shutil.rmtree(scratch, ignore_errors=True)
+    return out
+
+
 def run(prop, seed, jobs):
     res = {'errors': []}
     res['conformance'] = conformance(seed)
@@ -98,4 +128,6 @@ def run(prop, seed, jobs):
     res['selftest_on_seeded_changes'] = selftest(prop, jobs) if jobs else {}
     missed = [k for k, v in res['selftest_on_seeded_changes'].items() if v.get('caught') is False]
     res['selftest_missed'] = missed
+    res['benign_refactorings'] = benign(prop, jobs) if jobs else {}
+    res['false_alarms_on_benign_refactorings'] = [k for k, v in res['benign_refactorings'].items() if v.get('false_alarm')]
     return res
